@@ -6,6 +6,7 @@ PROP = "C16"
 THEOREM_FILE = "Props/C16.v"
 EXTRA_THEOREM_FILES = ["Props/C16_src.v"]     # source tie: translated source = model (DESIGN 5.1b)
 EXTRA_THEOREM_FILES.append("Props/C16_code.v")     # (CODA) code-level theorems: the property about the regenerated definitions
+EXTRA_THEOREM_FILES.append("Props/C16_src_g.v")     # SRCG: IPNetwork.ipv4 through the real text round trip
 RULE = ("addresses: every IPv4 boundary value (0, 1, max, 2^k, 2^k+-1, max-2^k+-1) and random values; IPv6 values at "
         "0, 2^32-1, 2^32, 0xfffeffffffff, 0xffff00000000, 0xffffffffffff, 0x1000000000000 each +-1, 2^128-1, all IPv6 "
         "boundary values, random values inside ::/96, inside ::ffff:0:0/96, in the gap between them, just above 2^48, "
